@@ -8,6 +8,7 @@ program list with ONE flusher thread (the forwarder owns `FlushState` by `&mut`)
 threads and EVERY schedule.
 -/
 import MetricsVerif.Proofs.StatsdAgg
+import MetricsVerif.Props.C10Hist
 import MetricsVerif.Generated.SourceFacts
 
 namespace MetricsVerif.C10
@@ -191,6 +192,40 @@ theorem gauge_flush_latest (pre : List GCall) (b : Nat) (post : List GCall) (ini
     simp [lastSet]
   rw [this]; rfl
 
+/-- **every flush sends the gauge's most recent value, for all three update operations**: in any linearization of
+    `set` / `increment` / `decrement` / `flush` a flush sends exactly the value produced by the operations before
+    it (no update lost, none applied twice), whatever `add`/`sub` are -/
+theorem gauge_ops_flush_latest (add sub : Nat → Nat → Nat) (pre : List GOp) : ∀ (init : Nat),
+    gaugeOps add sub (pre ++ [.flush]) init = gaugeOps add sub pre init ++ [gaugeVal add sub pre init] := by
+  induction pre with
+  | nil => intro init; rfl
+  | cons c r ih =>
+    intro init
+    cases c <;> simp only [List.cons_append, gaugeOps, gaugeVal, ih]
+
+/-- and the operations after a prefix start from that value -/
+theorem gauge_ops_append (add sub : Nat → Nat → Nat) (pre rest : List GOp) : ∀ (init : Nat),
+    gaugeOps add sub (pre ++ rest) init
+      = gaugeOps add sub pre init ++ gaugeOps add sub rest (gaugeVal add sub pre init) := by
+  induction pre with
+  | nil => intro init; rfl
+  | cons c r ih =>
+    intro init
+    cases c <;> simp only [List.cons_append, gaugeOps, gaugeVal, ih]
+
+/-- SOURCE FACT: every gauge update is ONE atomic operation on `inner` (`store` for set, a single `fetch_update`
+    read-modify-write for increment/decrement — not a load followed by a store), increment adds and decrement
+    subtracts, each is followed by the `updates` bump, and `flush` is one `load` -/
+theorem src_gauge_shape :
+    Generated.agg_gauge_set_calls = ["inner.store", "updates.fetch_add"]
+    ∧ Generated.agg_gauge_increment_calls = ["inner.fetch_update", "updates.fetch_add"]
+    ∧ Generated.agg_gauge_decrement_calls = ["inner.fetch_update", "updates.fetch_add"]
+    ∧ Generated.agg_gauge_flush_calls = ["inner.load", "updates.swap"]
+    ∧ Generated.agg_gauge_increment_arith = "+"
+    ∧ Generated.agg_gauge_decrement_arith = "-" := by decide
+
+example : gaugeOps (· + ·) (· - ·) [.set 5, .incr 3, .flush, .decr 6, .flush, .flush] 0 = [8, 2, 2] := by decide
+
 /-! ### timestamps: sent exactly in the mode documented to send one -/
 
 /-- the arms of `get_aggregation_timestamp` agree with the documentation of `AggregationMode`
@@ -244,6 +279,21 @@ theorem abs_only_telescopes (calls : List Call) : ∀ (last cur : Nat) (ds : Lis
       generalize (seqAbs rest (true, cur, cur, ds ++ [(cur + M - last) % M])).2.1 = rl at h1 ⊢
       simp only [M] at *
       omega
+
+/-- SOURCE FACT: the memory orderings of the counter operations are the ones the interleaving model assumes to be
+    (at least) release/acquire on the flush side: `flush` reads `current` with Acquire and swaps `last`/`updates`
+    with AcqRel; `absolute` publishes with Release stores; the `fetch_add`s are single RMWs -/
+theorem src_orderings :
+    Generated.shape_agg_counter_flush
+        = [("current.load", ["Acquire"]), ("last.swap", ["AcqRel"]), ("updates.swap", ["AcqRel"])]
+    ∧ Generated.shape_agg_counter_increment
+        = [("is_absolute.store", ["Release"]), ("current.fetch_add", ["Relaxed"]), ("updates.fetch_add", ["Relaxed"])]
+    ∧ Generated.shape_agg_counter_absolute
+        = [("is_absolute.swap", ["Release"]), ("last.store", ["Release"]), ("current.store", ["Release"]),
+           ("updates.fetch_add", ["Relaxed"])] := by decide
+
+/-- SOURCE FACT: the aggregation timestamp is in SECONDS since the epoch (what DogStatsD's `|T` field takes) -/
+theorem src_timestamp_unit : Generated.agg_ts_unit = "as_secs" := by decide
 
 /-! ### what was wrong before the fixes (kernel-evaluated witnesses on the `legacy` decision) -/
 
